@@ -58,6 +58,7 @@ def run_pool(ctx, rng, quick, pool, key_prefix, with_end=False, nwalk=None, enum
                 lines = ["QUIETOK 1", "START", "FEED1 " + cdrv.hexs(bs), "SNAP"]
                 if with_end and p.eof:
                     lines.append("END")
+                    lines.append("ENDIFDONE")      # the program has reached its end: end() has to say DONE as well
                 lines.append("FREE")
                 runs.append(("%s.%d" % (p.name, ii), p, lines))
         res = batch.run(runs, timeout=1200, zero_heap=True)
@@ -68,6 +69,14 @@ def run_pool(ctx, rng, quick, pool, key_prefix, with_end=False, nwalk=None, enum
             p = run_.prog
             bs = p.meta["inputs"][int(rid.split(".")[1])]
             items = trace.normal_form(run_, p)
+            late = [x for x in items if x[0] == "T" and x[6] == "D"]
+            if late:
+                items = [x for x in items if not (x[0] == "T" and x[6] == "D")]
+                ctx.count("end_after_done_calls")
+                if p.code_name(late[0][1]) != "DONE":
+                    ctx.violation("%s:end-after-done-returns-%s" % (key_prefix, p.code_name(late[0][1])),
+                                  "feed() reported DONE, end() called afterwards returns %s" % p.code_name(late[0][1]),
+                                  {"nmfu_source": p.meta["src"], "nmfu_args": p.meta["args"], "input_hex": bs.hex()})
             ctx.evaluations += 1
             ctx.count("runs_checked")
             ctx.count("bytes_fed", len(bs))
@@ -207,11 +216,21 @@ def loop_tail_shapes(rng, n, yields=False, family=None):
             lambda: [N("if", branches=[(cond(), actions())], orelse=[N("break", label=None)])],
             lambda: [N("if", branches=[(cond(), [N("if", branches=[(cond(), actions())], orelse=None)])], orelse=None)],
             lambda: [N("if", branches=[(cond(), actions())], orelse=None), N("if", branches=[(cond(), actions())], orelse=None)],
+            lambda: [N("wait", p=N("lit", bs=b"#", form="s")), N("break", label=None)],
+            lambda: [N("wait", p=N("lit", bs=b"#", form="s")), N("if", branches=[(cond(), [N("break", label=None)])], orelse=None)],
         ]
         shape = 0.95 if family == "append-yield" else rng.random()
         if shape < 0.75:
             lp = N("loop", label=None, body=rng.choice(heads)() + rng.choice(tails)())
-            body = [L(b"<"), lp] + ([N("hook", name="t"), L(b"!")] if "break;" in gen.stmt_src(lp) else [])
+            has_break = "break;" in gen.stmt_src(lp)
+            r_ = rng.random()
+            if has_break and r_ < 0.25:
+                # the loop ends a try body and only actions follow the try, at the very end of the program
+                body = [N("try", body=[L(b"<"), lp], reasons=rng.choice([None, ["nomatch"]]), handler=rng.choice([[], [N("hook", name="g")]]))] + actions()
+            elif has_break and r_ < 0.4:
+                body = [L(b"<"), N("try", body=[lp], reasons=None, handler=[N("hook", name="g")]), N("hook", name="t"), L(b"!")]
+            else:
+                body = [L(b"<"), lp] + ([N("hook", name="t"), L(b"!")] if has_break else [])
         elif shape < 0.9 or not yields:
             # the same tail at the end of a case clause / handler inside the loop
             inner = N("case", greedy=False, clauses=[N("clause", preds=[N("lit", bs=b"x", form="s")], body=rng.choice(heads)() + rng.choice(tails)(), prio=None),
